@@ -20,7 +20,7 @@ func init() { keepResult = checker.Keep }
 func TestMain(m *testing.M) { vk.Main(m, "C14") }
 
 type Case struct {
-	Op     string   `json:"op"` // join | getw | slice | maxslice | maxgetw
+	Op     string   `json:"op"`            // join | getw | slice | maxslice | maxgetw
 	Max    int      `json:"max,omitempty"` // maxslice/maxgetw: description of the maximum bitmap (exactly 2^25 words = 2^31 bits, gen.UseMax)
 	W      int32    `json:"w,omitempty"`
 	Values vk.Words `json:"values,omitempty"`
